@@ -102,7 +102,12 @@ type deferred struct {
 	tail  *deferred
 }
 
+// maxCallDepth bounds target recursion (the Go run time would end the process with a
+// fatal stack overflow much later).
+const maxCallDepth = 3000
+
 type frame struct {
+	depth int
 	i                *interpreter
 	caller           *frame
 	fn               *ssa.Function
@@ -349,6 +354,7 @@ func visitInstr(fr *frame, instr ssa.Instruction) continuation {
 		*addr = zero(mustDeref(instr.Type()))
 
 	case *ssa.MakeSlice:
+		fr.i.ex.splitHugeAlloc(fr.get(instr.Cap))
 		capV := asInt64(fr.i.ex.Concretize(fr.get(instr.Cap)))
 		lenV := asInt64(fr.i.ex.Concretize(fr.get(instr.Len)))
 		if lenV < 0 || lenV > maxAlloc {
@@ -358,8 +364,9 @@ func visitInstr(fr *frame, instr ssa.Instruction) continuation {
 			panic(runtimePanic("makeslice: cap out of range"))
 		}
 		fr.i.ex.noteAlloc(capV, instr)
-		slice := make([]value, capV)
 		tElt := instr.Type().Underlying().(*types.Slice).Elem()
+		fr.i.ex.noteCells(capV * cellCount(tElt))
+		slice := make([]value, capV)
 		for i := range slice {
 			slice[i] = zero(tElt)
 		}
@@ -611,6 +618,12 @@ func callSSA(i *interpreter, caller *frame, callpos token.Pos, fn *ssa.Function,
 		caller: caller, // for panic/recover
 		fn:     fn,
 	}
+	if caller != nil {
+		fr.depth = caller.depth + 1
+		if fr.depth > maxCallDepth {
+			panic(runtimePanic("stack overflow: call depth exceeds " + fmt.Sprint(maxCallDepth) + " in " + fn.String()))
+		}
+	}
 	if fn.Parent() == nil {
 		name := fn.String()
 		if ov, ok := i.overrides[name]; ok && ov != nil {
@@ -785,6 +798,10 @@ func doRecover(caller *frame) value {
 		caller.caller.panicking = false
 		p := caller.caller.panic
 		caller.caller.panic = nil
+		caller.i.ex.lastRecovered = fmt.Sprint(p)
+		if os.Getenv("GOSYM_DEBUG") != "" {
+			fmt.Fprintf(os.Stderr, "  [recover] %v\n", p)
+		}
 
 		// TODO(adonovan): support runtime.Goexit.
 		switch p := p.(type) {
